@@ -1,4 +1,5 @@
 import TakVerif.Impl.PTN
+import TakVerif.Generated.FactsEval
 
 /-! Mirror of the glue around two library decoders:
 `playtak/client.go` `ParseTell/ParseShout/ParseShoutRoom` (around `regexp.FindStringSubmatch`) and
